@@ -42,6 +42,17 @@ pub fn check_prefix(ctx: &mut Ctx, m: &[u8], cut: usize) {
             format!("{other:?}"),
         ),
     }
+    // under a tracing subscriber that enables everything: the same report (arguments of log macros are
+    // only evaluated then), for the short cuts around the header and a sample of the others
+    if cut <= 24 || cut % 7 == 0 || cut + 4 >= m.len() {
+        let sub = guard(|| crate::trace_sub::with_subscriber(|| Message::from_bytes(p).map(|_| ())));
+        match sub {
+            Ok(Err(StunParseError::Truncated { expected, actual })) if expected == want_expected && actual == cut => {}
+            Ok(other) => ctx.violation("C17", "prefix-truncated", "Message::from_bytes", "under-tracing-subscriber", || wit(m, cut), format!("Err(Truncated{{expected: {want_expected}, actual: {cut}}})"), format!("{other:?}")),
+            Err(pn) => ctx.violation("C17", "prefix-truncated", "Message::from_bytes", "panic-under-tracing-subscriber", || wit(m, cut), format!("Err(Truncated{{expected: {want_expected}, actual: {cut}}})"), format!("panic: {} at {}", pn.msg, pn.loc)),
+        }
+        ctx.count("prefixes-under-a-tracing-subscriber");
+    }
     // the TryFrom entry point reports the same
     let alt = guard(|| <Message as TryFrom<&[u8]>>::try_from(p).map(|_| ()));
     match alt {
